@@ -172,12 +172,11 @@ func checkC20(c *Ctx) {
 	c.notDecided = "memory outside the listed types; the Go memory model is not explored dynamically"
 	c.Assume("sync.Mutex/RWMutex/Once/Map and sync/atomic semantics; a lock instance protects the fields of the same struct instance")
 	const L1, L2, O1, A1, T1 = "C20.L1", "C20.L2", "C20.O1", "C20.A1", "C20.T1"
-	c.Rule(L1, "guarded-by discipline", 60)
-	c.Rule(L2, "serialising wrappers enter the wrapped (unsynchronised) instance only with their lock held exclusively", 2)
-	c.Rule(O1, "backend Init/SetShareData happen before the handler is published", 3)
-	c.Rule(A1, "epoch counters only through sync/atomic", 4)
-	c.Rule(T1, "every field of the stateful structs is classified; Member state is sync.Map/chan, config never written", 8)
-
+	c.Rule(L1, "guarded-by discipline", 30)
+	c.Rule(L2, "serialising wrappers enter the wrapped (unsynchronised) instance only with their lock held exclusively", 1)
+	c.Rule(O1, "backend Init/SetShareData happen before the handler is published", 1)
+	c.Rule(A1, "epoch counters only through sync/atomic", 2)
+	c.Rule(T1, "every field of the stateful structs is classified; Member state is sync.Map/chan, config never written", 4)
 	// ------------------------------------------------------------------ threshold
 	if t := buildThresholdModel(c); t != nil {
 		specs := []guardSpec{
@@ -463,8 +462,16 @@ func classifyFields(c *Ctx, rule string, m *Module, pkg, typ string, classes map
 	}
 	st := nt.Underlying().(*types.Struct)
 	missing := []string{}
+	// the table names fields as the reference tree does; each is resolved as an anchor (a renamed field is
+	// found by its type and position)
+	classified := map[*types.Var]bool{}
+	for name := range classes {
+		if f := m.Field(pkg, typ, name); f != nil {
+			classified[f] = true
+		}
+	}
 	for i := 0; i < st.NumFields(); i++ {
-		if _, ok := classes[st.Field(i).Name()]; !ok {
+		if _, ok := classes[st.Field(i).Name()]; !ok && !classified[st.Field(i)] {
 			// a field that is only ever assigned while the object is constructed is immutable configuration
 			mutated := false
 			for _, a := range accessesOf(m.PkgFuncs(pkg), st.Field(i)) {
